@@ -7,16 +7,19 @@ import Rfsm.Proofs.ExprLivelock
 /-!
 # C11 — Expression parsing and evaluation always terminate with a value or an error
 
-Model: `Rfsm.Expr`.  Every Rust panic (`i64 % 0`, `i64::MIN % -1`, `i64::MIN.abs()` with overflow
-checks, `panic!("Internal error")`), every `lock()` of a `Mutex` the evaluating thread already
-holds (`deadlock site`) and the never-ending token stream of an operator character at the very end
-of the text (`livelock`) is an explicit outcome of the model.  Termination of lexer, parser and
-evaluator *as functions* is what Lean's acceptance of the definitions establishes (structural
-recursion; the parser's fuel is shown sufficient in `C11_parser_fuel_sufficient`).
+Model: `Rfsm.Expr`.  Every Rust panic, every `lock()` of a `Mutex` the evaluating thread already
+holds (`deadlock site`) and a never-ending token stream (`livelock`) is an explicit outcome of the
+model.  Termination of lexer, parser and evaluator *as functions* is what Lean's acceptance of the
+definitions establishes (structural recursion; the parser's fuel is shown sufficient in
+`C11_parser_fuel_sufficient`).
 
-The unchanged code violates the property; `C11_counterexample_*` exhibit it on the model, the
-harness replays the same inputs on the real code (DESIGN §5 P3, P4, and the livelock found while
-modelling `read_operator`).
+State after the repairs of P3 (`%`, `abs`), P4 (`a = a`, `a ?= a`, `a[a]`, `a == [a]`) and of the
+lexer livelock (`1 <`): parsing is total (`C11_parse_total`), nothing panics
+(`C11_execute_no_panic`), the evaluator takes every lock with nothing else held
+(`C11_no_self_deadlock`), and the former witnesses are regression theorems
+(`C11_regression_*`).  What is left (`C11_partial`, `C11_counterexample`): `DataArc::eq` still
+locks both sides while it descends, so `==` / `!=` on two *cyclic* values (a value that contains
+its own cell, which `a[0] = a` can build) blocks on a lock it holds itself.
 -/
 namespace Rfsm.Expr
 
@@ -26,54 +29,74 @@ def C11_full : Prop :=
   ∀ (D : Type) (ops : DoubleOps D) (text : Str) (st : St D), st.held = [] →
     (execute ops text st).2.isValueOrError = true ∧ (execute ops text st).1.held = []
 
-/-! ## Counterexamples on the model of the unchanged code -/
+/-! ## The former counterexamples, on the model of the repaired code (regression) -/
 
 /-- store with one variable `a = 7` -/
 def storeA (D : Type) : St D := ⟨[.int 7], [([97], ⟨0, false⟩)], []⟩
 /-- store with `a = [7]` (cell 1 holds the array, cell 0 its element) -/
 def storeArr (D : Type) : St D := ⟨[.int 7, .array [⟨0, false⟩]], [([97], ⟨1, false⟩)], []⟩
 
-/-- P3: `5 % 0` panics -/
-theorem C11_counterexample_rem_by_zero {D : Type} (ops : DoubleOps D) :
-    (execute ops [53, 32, 37, 32, 48] ⟨[], [], []⟩).2 = .panic .remByZero := rfl
-#assert_axioms C11_counterexample_rem_by_zero
+/-- P3: `5 % 0` is an error value, no panic -/
+theorem C11_regression_rem_by_zero {D : Type} (ops : DoubleOps D) :
+    (execute ops [53, 32, 37, 32, 48] ⟨[], [], []⟩).2 = .ok ⟨2, false⟩ ∧
+    (execute ops [53, 32, 37, 32, 48] ⟨[], [], []⟩).1.get 2 = .error .remUndefined := ⟨rfl, rfl⟩
+#assert_axioms C11_regression_rem_by_zero
 
-/-- P3: `a % 0` leaves the cell of `a` locked (poisoned) -/
-theorem C11_counterexample_rem_poisons {D : Type} (ops : DoubleOps D) :
-    (execute ops [97, 32, 37, 32, 48] (storeA D)).2 = .panic .remByZero ∧
-    (execute ops [97, 32, 37, 32, 48] (storeA D)).1.held = [1, 0] := ⟨rfl, rfl⟩
-#assert_axioms C11_counterexample_rem_poisons
+/-- P3: `a % 0` leaves no cell locked -/
+theorem C11_regression_rem_releases {D : Type} (ops : DoubleOps D) :
+    (execute ops [97, 32, 37, 32, 48] (storeA D)).2 = .ok ⟨2, false⟩ ∧
+    (execute ops [97, 32, 37, 32, 48] (storeA D)).1.held = [] := ⟨rfl, rfl⟩
+#assert_axioms C11_regression_rem_releases
 
-/-- P4: `a = a` blocks on its own mutex -/
-theorem C11_counterexample_assign_self {D : Type} (ops : DoubleOps D) :
-    (execute ops [97, 32, 61, 32, 97] (storeA D)).2 = .deadlock .assign := rfl
-#assert_axioms C11_counterexample_assign_self
+/-- P4: `a = a` assigns -/
+theorem C11_regression_assign_self {D : Type} (ops : DoubleOps D) :
+    (execute ops [97, 32, 61, 32, 97] (storeA D)).2 = .ok ⟨0, false⟩ ∧
+    (execute ops [97, 32, 61, 32, 97] (storeA D)).1.held = [] := ⟨rfl, rfl⟩
+#assert_axioms C11_regression_assign_self
 
 /-- P4: `a ?= a` -/
-theorem C11_counterexample_assign_undef_self {D : Type} (ops : DoubleOps D) :
-    (execute ops [97, 32, 63, 61, 32, 97] (storeA D)).2 = .deadlock .assignUndef := rfl
-#assert_axioms C11_counterexample_assign_undef_self
+theorem C11_regression_assign_undef_self {D : Type} (ops : DoubleOps D) :
+    (execute ops [97, 32, 63, 61, 32, 97] (storeA D)).2 = .ok ⟨0, false⟩ ∧
+    (execute ops [97, 32, 63, 61, 32, 97] (storeA D)).1.held = [] := ⟨rfl, rfl⟩
+#assert_axioms C11_regression_assign_undef_self
 
-/-- P4: `a[a]` on an array -/
-theorem C11_counterexample_index_self {D : Type} (ops : DoubleOps D) :
-    (execute ops [97, 91, 97, 93] (storeArr D)).2 = .deadlock .indexArray := rfl
-#assert_axioms C11_counterexample_index_self
+/-- P4: `a[a]` on an array is an "Illegal index type" error -/
+theorem C11_regression_index_self {D : Type} (ops : DoubleOps D) :
+    (execute ops [97, 91, 97, 93] (storeArr D)).2 = .err .illegalIndexType ∧
+    (execute ops [97, 91, 97, 93] (storeArr D)).1.held = [] := ⟨rfl, rfl⟩
+#assert_axioms C11_regression_index_self
 
-/-- P4: `a == [a]` with `a = [7]` -/
-theorem C11_counterexample_equal_self {D : Type} (ops : DoubleOps D) :
-    (execute ops [97, 32, 61, 61, 32, 91, 97, 93] (storeArr D)).2 = .deadlock .equal := rfl
-#assert_axioms C11_counterexample_equal_self
+/-- P4: `a == [a]` with `a = [7]` is `false` -/
+theorem C11_regression_equal_self {D : Type} (ops : DoubleOps D) :
+    (execute ops [97, 32, 61, 61, 32, 91, 97, 93] (storeArr D)).2 = .ok ⟨3, false⟩ ∧
+    (execute ops [97, 32, 61, 61, 32, 91, 97, 93] (storeArr D)).1.get 3 = .bool false ∧
+    (execute ops [97, 32, 61, 61, 32, 91, 97, 93] (storeArr D)).1.held = [] := ⟨rfl, rfl, rfl⟩
+#assert_axioms C11_regression_equal_self
 
-/-- an operator character as the very last character: the lexer never reaches the end (`1 <`) -/
-theorem C11_counterexample_livelock :
-    nextToken [0] [60] = (.operator .less, [60]) ∧ parse [49, 32, 60] = .livelock := ⟨rfl, rfl⟩
-#assert_axioms C11_counterexample_livelock
+/-- an operator character as the very last character: the lexer reaches the end, `1 <` is a parse
+error -/
+theorem C11_regression_livelock :
+    nextToken [0] [60] = (.operator .less, []) ∧ (∃ e, parse [49, 32, 60] = .err e) :=
+  ⟨rfl, ⟨_, rfl⟩⟩
+#assert_axioms C11_regression_livelock
+
+/-! ## What is still false: `==` on two cyclic values -/
+
+/-- two cells that each hold a one-element array containing the cell itself (`a[0] = a` builds
+such a value from `a = [7]`), `a` and `b` name them -/
+def storeCyc (D : Type) : St D :=
+  ⟨[.array [⟨0, false⟩], .array [⟨1, false⟩]], [([97], ⟨0, false⟩), ([98], ⟨1, false⟩)], []⟩
+
+/-- `a == b` on two cyclic values: `DataArc::eq` locks both cells, descends and comes back to them -/
+theorem C11_counterexample_equal_cyclic {D : Type} (ops : DoubleOps D) :
+    (execute ops [97, 32, 61, 61, 32, 98] (storeCyc D)).2 = .deadlock .equal := rfl
+#assert_axioms C11_counterexample_equal_cyclic
 
 theorem C11_counterexample : ¬ C11_full := by
   intro h
   have := (h Unit ⟨fun _ _ => (), fun _ _ => (), fun _ _ => (), fun _ _ => (), fun _ _ => (),
     fun _ _ => false, fun _ _ => false, fun _ _ => false, fun _ => false, fun _ => (), fun _ => (),
-    fun _ => none, fun _ => (), fun _ => []⟩ [53, 32, 37, 32, 48] ⟨[], [], []⟩ rfl).1
+    fun _ => none, fun _ => (), fun _ => []⟩ [97, 32, 61, 61, 32, 98] (storeCyc Unit) rfl).1
   exact absurd this (by decide)
 #assert_axioms C11_counterexample
 
@@ -107,45 +130,24 @@ theorem C11_parser_fuel_sufficient (text : Str) : parse text ≠ .outOfFuel :=
   parse_fuel_sufficient text
 #assert_axioms C11_parser_fuel_sufficient
 
-/-- **Parsing, all strings**: an expression, an error, or the end-of-input livelock — nothing else.
-Missing for the parsing half of `C11_full`: the `livelock` case, which the unchanged code has
-(`C11_counterexample_livelock`). -/
-theorem C11_parse_total_partial (text : Str) :
-    (∃ e, parse text = .ok e) ∨ (∃ e, parse text = .err e) ∨ parse text = .livelock := by
+/-- the parser never reports a livelock: an operator token always consumes its character -/
+theorem C11_parser_no_livelock (text : Str) : parse text ≠ .livelock := parse_no_livelock text
+#assert_axioms C11_parser_no_livelock
+
+/-- **Parsing, all strings, full strength**: every text parses to an expression or a parse error
+(no panic, no livelock, no fuel artefact). -/
+theorem C11_parse_total (text : Str) :
+    (∃ e, parse text = .ok e) ∨ (∃ e, parse text = .err e) := by
   have h1 := parse_no_panic text
   have h2 := parse_fuel_sufficient text
+  have h3 := parse_no_livelock text
   cases h : parse text with
   | ok e => exact Or.inl ⟨e, rfl⟩
-  | err e => exact Or.inr (Or.inl ⟨e, rfl⟩)
-  | livelock => exact Or.inr (Or.inr rfl)
+  | err e => exact Or.inr ⟨e, rfl⟩
+  | livelock => exact absurd h h3
   | panic => exact absurd h h1
   | outOfFuel => exact absurd h h2
-#assert_axioms C11_parse_total_partial
-
-/-- the livelock happens only on texts whose last character is `<`, `>`, `=` or `!` -/
-theorem C11_livelock_only_at_trailing_operator (text : Str) (h : parse text = .livelock) :
-    ∃ c, (c = 60 ∨ c = 62 ∨ c = 61 ∨ c = 33) ∧ text.getLast? = some c :=
-  parse_livelock_ends_bad text h
-#assert_axioms C11_livelock_only_at_trailing_operator
-
-/-- **Parsing terminates with an expression or an error for every text that does not end in
-`<`, `>`, `=` or `!`** (all strings; no fuel, no panic, no livelock).
-Missing for the parsing half of `C11_full`: exactly the texts excluded here, on which the
-unchanged code does not terminate (`C11_counterexample_livelock`). -/
-theorem C11_parse_terminates_partial (text : Str)
-    (h : ∀ c, text.getLast? = some c → c ≠ 60 ∧ c ≠ 62 ∧ c ≠ 61 ∧ c ≠ 33) :
-    (∃ e, parse text = .ok e) ∨ (∃ e, parse text = .err e) := by
-  rcases C11_parse_total_partial text with h1 | h1 | h1
-  · exact Or.inl h1
-  · exact Or.inr h1
-  · obtain ⟨c, hc, hl⟩ := parse_livelock_ends_bad text h1
-    have := h c hl
-    rcases hc with rfl | rfl | rfl | rfl <;> simp_all
-#assert_axioms C11_parse_terminates_partial
-
-/-- non-vacuity: `1 < 2` satisfies the hypothesis -/
-example : ∀ c, ([49, 32, 60, 32, 50] : Str).getLast? = some c → c ≠ 60 ∧ c ≠ 62 ∧ c ≠ 61 ∧ c ≠ 33 := by
-  intro c h; simp at h; subst h; decide
+#assert_axioms C11_parse_total
 
 /-- `stack_to_expression` shortens its stack on every round: `stack.length + 1` rounds suffice -/
 theorem C11_stackToExpr_fuel_sufficient (stack : List Item) :
@@ -173,13 +175,30 @@ theorem C11_execute_locks_released {D : Type} (ops : DoubleOps D) (text : Str) (
   all_goals exact h
 #assert_axioms C11_execute_locks_released
 
-/-- the evaluator blocks on its own locks only at the four sites where it takes a second lock
-while holding one (`index-array`, `assign`, `assign-undef`, `equal`): every `lock()` taken with
-nothing else held succeeds -/
-theorem C11_deadlock_only_at_second_locks {D : Type} (ops : DoubleOps D) (e : Expr) (au : Bool)
-    (st : St D) (h : st.held = []) : (eval ops e au st).2 ≠ .deadlock .other :=
-  eval_no_deadlock_other ops e au st h
-#assert_axioms C11_deadlock_only_at_second_locks
+/-- every `lock()` the evaluator itself performs is taken with nothing else held and succeeds; the
+only place an evaluation can block is inside `DataArc::eq` (`==` / `!=`) -/
+theorem C11_deadlock_only_in_equality {D : Type} (ops : DoubleOps D) (e : Expr) (au : Bool)
+    (st : St D) (h : st.held = []) (s : LockSite) (hd : (eval ops e au st).2 = .deadlock s) :
+    s = .equal := eval_deadlock_only_equal ops e au st h s hd
+#assert_axioms C11_deadlock_only_in_equality
+
+/-- the evaluator never panics (integer `%` and `abs` were the two sources) -/
+theorem C11_evaluator_no_panic {D : Type} (ops : DoubleOps D) (e : Expr) (au : Bool)
+    (st : St D) (h : st.held = []) (s : PanicSite) : (eval ops e au st).2 ≠ .panic s :=
+  eval_no_panic ops e au st h s
+#assert_axioms C11_evaluator_no_panic
+
+/-- **no panic, all texts, all stores** -/
+theorem C11_execute_no_panic {D : Type} (ops : DoubleOps D) (text : Str) (st : St D)
+    (h : st.held = []) (s : PanicSite) : (execute ops text st).2 ≠ .panic s := by
+  unfold execute
+  split
+  · exact eval_no_panic ops _ false st h s
+  · intro hh; cases hh
+  · rename_i hp; exact absurd hp (parse_no_panic text)
+  · intro hh; cases hh
+  · intro hh; cases hh
+#assert_axioms C11_execute_no_panic
 
 /-- the evaluator itself never loops: `livelock` is an outcome of parsing only.  (The outcome
 `fuelOut` of the model's `==` / `Display` recursion through the heap is not excluded by a theorem:
@@ -190,23 +209,21 @@ theorem C11_evaluator_no_livelock {D : Type} (ops : DoubleOps D) (e : Expr) (au 
   eval_no_livelock ops e au st h
 #assert_axioms C11_evaluator_no_livelock
 
-/-- **no self-deadlock when the operand cells are distinct**: `l = r`, `l ?= r` and `l[i]` do not
-block when the two sub-expressions evaluate to different cells.
-Missing for "never blocks on its own data locks": equal cells (false on the unchanged code:
-`C11_counterexample_assign_self`, `…_assign_undef_self`, `…_index_self`) and `==`/`!=` on
-containers that reach an operand cell (`C11_counterexample_equal_self`). -/
-theorem C11_no_self_deadlock_distinct_partial {D : Type} (ops : DoubleOps D) (l r : Expr) (au : Bool)
+/-- **no self-deadlock in assignments and index expressions**: `l = r`, `l ?= r` and `l[i]` do not
+block, whatever cells the two sub-expressions evaluate to — equal cells included (the side
+condition `b.id ≠ a.id` of the former `…_distinct_partial` is gone). -/
+theorem C11_no_self_deadlock {D : Type} (ops : DoubleOps D) (l r : Expr) (au : Bool)
     (st st1 st2 : St D) (a b : Ref) (hst : st.held = []) (s : LockSite) :
-    (eval ops r false st = (st1, .ok a) → eval ops l au st1 = (st2, .ok b) → b.id ≠ a.id →
+    (eval ops r false st = (st1, .ok a) → eval ops l au st1 = (st2, .ok b) →
       (eval ops (.assign l r) au st).2 ≠ .deadlock s) ∧
-    (eval ops r au st = (st1, .ok a) → eval ops l true st1 = (st2, .ok b) → b.id ≠ a.id →
+    (eval ops r au st = (st1, .ok a) → eval ops l true st1 = (st2, .ok b) →
       (eval ops (.assignUndef l r) au st).2 ≠ .deadlock s) ∧
-    (eval ops l au st = (st1, .ok a) → eval ops r au st1 = (st2, .ok b) → b.id ≠ a.id →
+    (eval ops l au st = (st1, .ok a) → eval ops r au st1 = (st2, .ok b) →
       (eval ops (.index l r) au st).2 ≠ .deadlock s) :=
-  ⟨fun h1 h2 h3 => assign_no_deadlock ops l r au st st1 st2 a b hst h1 h2 h3 s,
-   fun h1 h2 h3 => assignUndef_no_deadlock ops l r au st st1 st2 a b hst h1 h2 h3 s,
-   fun h1 h2 h3 => index_no_deadlock ops l r au st st1 st2 a b hst h1 h2 h3 s⟩
-#assert_axioms C11_no_self_deadlock_distinct_partial
+  ⟨fun h1 h2 => assign_no_deadlock ops l r au st st1 st2 a b hst h1 h2 s,
+   fun h1 h2 => assignUndef_no_deadlock ops l r au st st1 st2 a b hst h1 h2 s,
+   fun h1 h2 => index_no_deadlock ops l r au st st1 st2 a b hst h1 h2 s⟩
+#assert_axioms C11_no_self_deadlock
 
 /-- non-vacuity: `a = b` with two different cells assigns and holds nothing afterwards -/
 example {D : Type} (ops : DoubleOps D) :
@@ -215,18 +232,53 @@ example {D : Type} (ops : DoubleOps D) :
     (execute ops [97, 32, 61, 32, 98] ⟨[.int 7, .int 8], [([97], ⟨0, false⟩), ([98], ⟨1, false⟩)], []⟩).1.held
       = [] := ⟨rfl, rfl⟩
 
-/-- no panic from arithmetic other than integer `%` -/
-theorem C11_arithmetic_no_panic_partial {D : Type} (ops : DoubleOps D) (cells : Cells D)
-    (held : List Nat) (o : Op) (l r : Data D) (ho : o ≠ .modulus) (s : PanicSite) :
-    operation ops cells held o l r ≠ .panic s :=
-  operation_no_panic ops cells held o l r ho s
-#assert_axioms C11_arithmetic_no_panic_partial
+/-- every operator other than `==` / `!=` yields a value or an error value: arithmetic neither
+panics nor blocks -/
+theorem C11_arithmetic_total {D : Type} (ops : DoubleOps D) (cells : Cells D)
+    (held : List Nat) (o : Op) (l r : Data D) (h1 : o ≠ .equal) (h2 : o ≠ .notEqual) :
+    ∃ d n, operation ops cells held o l r = .val d n :=
+  operation_val ops cells held o l r h1 h2
+#assert_axioms C11_arithmetic_total
 
-/-- integer `%` is total exactly away from the two inputs on which Rust's `%` panics -/
-theorem C11_modulus_total_partial {D : Type} (ops : DoubleOps D) (cells : Cells D)
-    (held : List Nat) (a b : Int) (hb : b ≠ 0) (hm : ¬ (a = i64Min ∧ b = -1)) :
-    operation ops cells held .modulus (.int a) (.int b) = .val (.int (Int.tmod a b)) [] :=
-  operation_modulus_int ops cells held a b hb hm
-#assert_axioms C11_modulus_total_partial
+/-- integer `%` is total: the truncated remainder, an error value for a zero divisor, and
+`i64::MIN % -1 = 0` -/
+theorem C11_modulus_total {D : Type} (ops : DoubleOps D) (cells : Cells D) (held : List Nat)
+    (a b : Int) :
+    (b ≠ 0 → operation ops cells held .modulus (.int a) (.int b) = .val (.int (Int.tmod a b)) []) ∧
+    operation ops cells held .modulus (.int a) (.int 0) = .val (.error .remUndefined) [] ∧
+    operation ops cells held .modulus (.int i64Min) (.int (-1)) = .val (.int 0) [] :=
+  ⟨operation_modulus_int ops cells held a b, operation_modulus_zero ops cells held a,
+   operation_modulus_min ops cells held⟩
+#assert_axioms C11_modulus_total
+
+/-- **C11, what holds for every text and every store**: `execute` ends with a value or an error —
+or blocks inside `DataArc::eq` (`deadlock .equal`: cyclic operands of `==` / `!=`,
+`C11_counterexample_equal_cyclic`), or the model's heap recursion runs out of fuel (`fuelOut`,
+tier B: not excluded by a theorem, never observed); and when it ends with a value or an error no
+data lock is held.
+Missing for `C11_full`: exactly the two outcomes named here. -/
+theorem C11_partial {D : Type} (ops : DoubleOps D) (text : Str) (st : St D) (h : st.held = []) :
+    ((execute ops text st).2.isValueOrError = true ∨ (execute ops text st).2 = .deadlock .equal ∨
+      (execute ops text st).2 = .fuelOut) ∧
+    ((execute ops text st).2.isValueOrError = true → (execute ops text st).1.held = []) := by
+  refine ⟨?_, C11_execute_locks_released ops text st h⟩
+  unfold execute
+  split
+  · rename_i e he
+    have hp := eval_no_panic ops e false st h
+    have hl := eval_no_livelock ops e false st h
+    have hd := eval_deadlock_only_equal ops e false st h
+    cases ho : (eval ops e false st).2 with
+    | ok a => exact Or.inl rfl
+    | err e => exact Or.inl rfl
+    | panic s => exact absurd ho (hp s)
+    | deadlock s => rw [hd s ho]; exact Or.inr (Or.inl rfl)
+    | livelock => exact absurd ho hl
+    | fuelOut => exact Or.inr (Or.inr rfl)
+  · exact Or.inl rfl
+  · rename_i hp; exact absurd hp (parse_no_panic text)
+  · rename_i hp; exact absurd hp (parse_no_livelock text)
+  · rename_i hp; exact absurd hp (parse_fuel_sufficient text)
+#assert_axioms C11_partial
 
 end Rfsm.Expr
